@@ -560,9 +560,20 @@ func c01Views(c *wk.Ctx) {
 			r := c.Rand("c01v"+vt.name, i)
 			// lengths: every length 0..min+64 round-robin, then seeds and mutated seeds
 			var in []byte
-			mode := i % 4
+			mode := i % 5
 			mut := "random"
 			switch mode {
+			case 4:
+				// count / size / length bytes at the values where products and sums wrap (x8 at 32, x4 at 64, x10 at 26, ...),
+				// then cut short: a validity check computed in a narrower type than the accessor must not let this through
+				in = viewSeed(r, e, vt.name, 0)
+				for k := 1 + r.Intn(2); k > 0 && len(in) > 0; k-- {
+					in[r.Intn(len(in))] = byte([]int{25, 26, 31, 32, 33, 63, 64, 65, 127, 128, 129, 254, 255, r.Intn(256)}[r.Intn(14)])
+				}
+				if len(in) > vt.min {
+					in = in[:vt.min+r.Intn(len(in)-vt.min+1)]
+				}
+				mut = "seed-bytes-truncated"
 			case 0:
 				in = gen.RandBytes(r, int(i/4)%(vt.min+65))
 			case 1:
